@@ -11,6 +11,7 @@ Part 2  `decl_decision_partial`, `assign_decision_partial` and the guards `kf…
         which the unchanged code accepts silently; `witness_*` (closed programs, kernel-evaluated).
 Part 3  `no_silent_downward_*`.
 -/
+import Lean
 import Oq3.Model.Sema
 import Oq3.Props.C19
 import Oq3.Props.C20
@@ -117,6 +118,8 @@ theorem Spec.pure {α} {a : α} {R : α → Prop} (h : R a) : Spec S (pure a : M
   simp only [M.pure_ok, Prod.mk.injEq] at hr
   obtain ⟨rfl, rfl⟩ := hr
   exact ⟨Ext.refl _, fun _ => h⟩
+
+theorem Spec.pure_eq {α} (a : α) : Spec S (Pure.pure a : M α) (fun b => b = a) := Spec.pure rfl
 
 theorem Spec.bind {α β} {x : M α} {f : α → M β} {R1 : α → Prop} {R2 : β → Prop}
     (hx : Spec S x R1) (hf : ∀ a, Spec S (f a) (fun b => R1 a → R2 b)) : Spec S (x >>= f) R2 := by
@@ -377,6 +380,54 @@ theorem Spec.tableLookup (name : String) :
 
 /-! ### the proof script -/
 
+open Lean Elab Tactic Meta in
+/-- the program `x` of a goal `Spec S x R` -/
+def specProgram (g : MVarId) : MetaM (Option Lean.Expr) := do
+  let t ← instantiateMVars (← g.getType)
+  let t := t.consumeMData
+  if t.isAppOfArity ``Spec 4 then return some (t.getArg! 2).consumeMData else return none
+
+open Lean Elab Tactic Meta in
+/-- succeeds iff the goal is `Spec S x R` and the head symbol of `x` is the given constant
+(a cheap guard in front of every rule: a failing `exact` on these large terms is expensive) -/
+elab "spec_head " id:ident : tactic => withMainContext do
+  let n ← realizeGlobalConstNoOverloadWithInfo id
+  match ← specProgram (← getMainGoal) with
+  | some x =>
+    match x.getAppFn.consumeMData with
+    | Lean.Expr.const m _ => if m == n then pure () else throwError "head"
+    | _ => throwError "head"
+  | none => throwError "not a Spec goal"
+
+open Lean Elab Tactic Meta in
+/-- succeeds iff the goal is `Spec S x R` and `x` is an `if` or a `match` -/
+elab "spec_is_split" : tactic => withMainContext do
+  match ← specProgram (← getMainGoal) with
+  | some x =>
+    match x.getAppFn.consumeMData with
+    | Lean.Expr.const m _ =>
+      if m == ``ite || m == ``dite then pure ()
+      else if (← isMatcher m) then pure ()
+      else throwError "not a split"
+    | _ => throwError "not a split"
+  | none => throwError "not a Spec goal"
+
+open Lean Elab Tactic Meta in
+/-- succeeds iff the goal is `Spec S (x >>= f) R` and `x` is an `if` or a `match` (its branches
+cannot determine a common postcondition by unification: the weakest one is used) -/
+elab "spec_bind_is_split" : tactic => withMainContext do
+  match ← specProgram (← getMainGoal) with
+  | some p =>
+    if p.isAppOfArity ``Bind.bind 6 then
+      match (p.getArg! 4).consumeMData.getAppFn.consumeMData with
+      | Lean.Expr.const m _ =>
+        if m == ``ite || m == ``dite then pure ()
+        else if (← isMatcher m) then pure ()
+        else throwError "not a split"
+      | _ => throwError "not a split"
+    else throwError "not a bind"
+  | none => throwError "not a Spec goal"
+
 /-- extensible: closing a pure side goal about well-typedness -/
 syntax "wt_close" : tactic
 macro_rules | `(tactic| wt_close) => `(tactic| first
@@ -397,7 +448,7 @@ macro "spec_leaf" : tactic => `(tactic|
 syntax "spec_use " term : tactic
 macro_rules | `(tactic| spec_use $t) => `(tactic| first
   | with_reducible exact $t
-  | (refine Spec.mono $t ?_; spec_leaf))
+  | ((with_reducible refine Spec.mono $t ?_); spec_leaf))
 
 /-- extensible: specifications of already-treated functions -/
 syntax "spec_lemma" : tactic
@@ -408,37 +459,44 @@ syntax "spec_ih" : tactic
 macro_rules | `(tactic| spec_ih) => `(tactic| fail "no ih")
 
 macro "spec_step" : tactic => `(tactic| first
-  | with_reducible exact Spec.fail _ _
-  | with_reducible exact Spec.throw _ _
-  | spec_use (Spec.unwrap _ _)
-  | spec_use (Spec.insertError _ _)
-  | spec_use Spec.currentScopeType
-  | spec_use Spec.inGlobalScope
-  | spec_use (Spec.tableLookup _)
+  | (spec_head Sema.fail; first
+      | with_reducible exact Spec.fail _ _
+      | with_reducible exact Spec.fail _ (fun _ => True)
+      | exact Spec.fail _ _)
+  | (spec_head throw; with_reducible exact Spec.throw _ _)
+  | (spec_head Sema.unwrap; spec_use (Spec.unwrap _ _))
+  | (spec_head Sema.insertError; spec_use (Spec.insertError _ _))
+  | (spec_head Sema.currentScopeType; spec_use Spec.currentScopeType)
+  | (spec_head Sema.inGlobalScope; spec_use Spec.inGlobalScope)
+  | (spec_head Sema.tableLookup; spec_use (Spec.tableLookup _))
   | spec_lemma
   | spec_ih
-  | with_reducible apply Spec.bind_unit
-  | with_reducible apply Spec.bind
+  | (spec_head Bind.bind; first
+      | with_reducible apply Spec.bind_unit
+      | (spec_bind_is_split; with_reducible apply Spec.bind (R1 := fun _ => True))
+      | with_reducible apply Spec.bind)
   | intro _
-  | dsimp only
-  | split
-  | (refine Spec.pure ?_; spec_leaf))
+  | (spec_is_split; split)
+  | (spec_head Pure.pure; first
+      | with_reducible exact Spec.pure_eq _
+      | ((with_reducible refine Spec.pure ?_); spec_leaf))
+  | dsimp only)
 
 macro "spec" : tactic => `(tactic| repeat' spec_step)
 
 theorem Spec.lookupSymbol (name : String) (node : Ast.Span) :
     Spec S (lookupSymbol name node) (fun r => SymTyped S r.1 r.2) := by
   unfold Sema.lookupSymbol; spec
-macro_rules | `(tactic| spec_lemma) => `(tactic| spec_use (Spec.lookupSymbol _ _))
+macro_rules | `(tactic| spec_lemma) => `(tactic| (spec_head Sema.lookupSymbol; spec_use (Spec.lookupSymbol _ _)))
 
 theorem Spec.lookupGateSymbol (name : String) (node : Ast.Span) :
     Spec S (lookupGateSymbol name node) (fun r => SymTyped S r.1 r.2) := by
   unfold Sema.lookupGateSymbol; spec
-macro_rules | `(tactic| spec_lemma) => `(tactic| spec_use (Spec.lookupGateSymbol _ _))
+macro_rules | `(tactic| spec_lemma) => `(tactic| (spec_head Sema.lookupGateSymbol; spec_use (Spec.lookupGateSymbol _ _)))
 
 theorem Spec.lookupIdentifier (i : Ast.Identifier) :
     Spec S (lookupIdentifier i) (fun r => SymTyped S r.1 r.2) := Spec.lookupSymbol _ _
-macro_rules | `(tactic| spec_lemma) => `(tactic| spec_use (Spec.lookupIdentifier _))
+macro_rules | `(tactic| spec_lemma) => `(tactic| (spec_head Sema.lookupIdentifier; spec_use (Spec.lookupIdentifier _)))
 
 theorem Spec.binaryOpToAsgType (op : Ast.BinaryOp) :
     Spec S (binaryOpToAsgType op) (fun r => r ≠ .powerOp) := by
@@ -446,44 +504,190 @@ theorem Spec.binaryOpToAsgType (op : Ast.BinaryOp) :
   split <;> first
     | exact Spec.fail _ _
     | (refine Spec.pure ?_; intro h; cases h)
-macro_rules | `(tactic| spec_lemma) => `(tactic| spec_use (Spec.binaryOpToAsgType _))
+macro_rules | `(tactic| spec_lemma) => `(tactic| (spec_head Sema.binaryOpToAsgType; spec_use (Spec.binaryOpToAsgType _)))
 
 theorem Spec.intNumberValue (site text : String) :
     Spec S (intNumberValue site text) (fun _ => True) := by
   unfold Sema.intNumberValue; spec
-macro_rules | `(tactic| spec_lemma) => `(tactic| spec_use (Spec.intNumberValue _ _))
+macro_rules | `(tactic| spec_lemma) => `(tactic| (spec_head Sema.intNumberValue; spec_use (Spec.intNumberValue _ _)))
 
 theorem Spec.negativeIntToAsgType (text : String) :
     Spec S (negativeIntToAsgType text) (fun _ => True) := by
   unfold Sema.negativeIntToAsgType; spec
-macro_rules | `(tactic| spec_lemma) => `(tactic| spec_use (Spec.negativeIntToAsgType _))
+macro_rules | `(tactic| spec_lemma) => `(tactic| (spec_head Sema.negativeIntToAsgType; spec_use (Spec.negativeIntToAsgType _)))
 
 theorem Spec.negativeFloatNumberToAsgType (fmt : Option String) :
     Spec S (negativeFloatNumberToAsgType fmt) (fun _ => True) := by
   unfold Sema.negativeFloatNumberToAsgType; spec
-macro_rules | `(tactic| spec_lemma) => `(tactic| spec_use (Spec.negativeFloatNumberToAsgType _))
+macro_rules | `(tactic| spec_lemma) => `(tactic| (spec_head Sema.negativeFloatNumberToAsgType; spec_use (Spec.negativeFloatNumberToAsgType _)))
 
 macro_rules | `(tactic| wt_close) => `(tactic| exact wt_literal rfl)
 
 theorem Spec.literalToAsgTexpr (l : Ast.Literal) : Spec S (literalToAsgTexpr l) (OptWT S) := by
   unfold Sema.literalToAsgTexpr; spec
-macro_rules | `(tactic| spec_lemma) => `(tactic| spec_use (Spec.literalToAsgTexpr _))
+macro_rules | `(tactic| spec_lemma) => `(tactic| (spec_head Sema.literalToAsgTexpr; spec_use (Spec.literalToAsgTexpr _)))
 
 theorem Spec.getConstValue (id : Nat) : Spec S (getConstValue id) (fun _ => True) := by
   apply Spec.of_symtab_eq
   intro c a c' hr
   simp only [Sema.getConstValue, M.get_bind_ok, M.pure_ok, Prod.mk.injEq] at hr
   exact ⟨by rw [hr.2], trivial⟩
-macro_rules | `(tactic| spec_lemma) => `(tactic| spec_use (Spec.getConstValue _))
+macro_rules | `(tactic| spec_lemma) => `(tactic| (spec_head Sema.getConstValue; spec_use (Spec.getConstValue _)))
 
 theorem Spec.designatorToAsg (d : Option Ast.Designator) :
     Spec S (designatorToAsg d) (fun _ => True) := by
   unfold Sema.designatorToAsg; spec
-macro_rules | `(tactic| spec_lemma) => `(tactic| spec_use (Spec.designatorToAsg _))
+macro_rules | `(tactic| spec_lemma) => `(tactic| (spec_head Sema.designatorToAsg; spec_use (Spec.designatorToAsg _)))
 
 theorem Spec.scalarTypeToType (st : Ast.ScalarType) (isconst : Bool) :
     Spec S (scalarTypeToType st isconst) (fun _ => True) := by
   unfold Sema.scalarTypeToType; spec
-macro_rules | `(tactic| spec_lemma) => `(tactic| spec_use (Spec.scalarTypeToType _ _))
+macro_rules | `(tactic| spec_lemma) => `(tactic| (spec_head Sema.scalarTypeToType; spec_use (Spec.scalarTypeToType _ _)))
+
+/-! ### the expression part of the mutual block -/
+
+/-- an `IndexedIdentifier` and the type returned next to it -/
+def IIWT (S : List Sym) : IndexedIdentifier → T → Prop
+  | .mk sym ixs, t => SymTyped S sym t ∧ ∀ ix, ix ∈ ixs → IxWT S ix
+
+def IxsWT (S : List Sym) (ixs : List IndexOperator) : Prop := ∀ ix, ix ∈ ixs → IxWT S ix
+
+/-- parameter lists of calls -/
+def OptListWT (S : List Sym) : Option (List TExpr) → Prop
+  | some ps => ListWT S ps
+  | none => True
+
+/-- the specifications of the twelve expression functions at one fuel level -/
+structure AllSpec (S : List Sym) (fuel : Nat) : Prop where
+  exprToAsgTexpr : ∀ (e : Option Ast.Expr), Spec S (Sema.exprToAsgTexpr fuel e) (OptWT S)
+  parenExprToAsgTexpr : ∀ (p : Ast.ParenExpr), Spec S (Sema.parenExprToAsgTexpr fuel p) (OptWT S)
+  setExpressionToAsgType : ∀ (se : Ast.SetExpression), Spec S (Sema.setExpressionToAsgType fuel se) (ListWT S)
+  rangeExpressionToAsgType : ∀ (r : Ast.RangeExpr), Spec S (Sema.rangeExpressionToAsgType fuel r) (fun r => WT S r.1 ∧ OptWT S r.2.1 ∧ WT S r.2.2)
+  callExprToAsgTexpr : ∀ (sp : Ast.Span) (al : Option Ast.ArgList) (i : Option Ast.Identifier), Spec S (Sema.callExprToAsgTexpr fuel sp al i) (WT S)
+  gateOperandToAsgTexpr : ∀ (g : Ast.GateOperand), Spec S (Sema.gateOperandToAsgTexpr fuel g) (WT S)
+  indexOperatorToAsgType : ∀ (ix : Ast.IndexOperator), Spec S (Sema.indexOperatorToAsgType fuel ix) (IxWT S)
+  expressionListToAsgType : ∀ (el : Ast.ExpressionList), Spec S (Sema.expressionListToAsgType fuel el) (ListWT S)
+  expressionListToAsgTexpr : ∀ (el : Ast.ExpressionList), Spec S (Sema.expressionListToAsgTexpr fuel el) (ListWT S)
+  exprsLoop : ∀ (es : List Ast.Expr), Spec S (Sema.exprsLoop fuel es) (ListWT S)
+  indexedIdentifierToAsgType : ∀ (ii : Ast.IndexedIdentifier), Spec S (Sema.indexedIdentifierToAsgType fuel ii) (fun r => IIWT S r.1 r.2)
+  indexOperatorsLoop : ∀ (ixs : List Ast.IndexOperator), Spec S (Sema.indexOperatorsLoop fuel ixs) (IxsWT S)
+
+set_option hygiene false in
+macro_rules | `(tactic| spec_ih) => `(tactic| first
+  | (spec_head Sema.exprToAsgTexpr; spec_use (h_exprToAsgTexpr _))
+  | (spec_head Sema.parenExprToAsgTexpr; spec_use (h_parenExprToAsgTexpr _))
+  | (spec_head Sema.setExpressionToAsgType; spec_use (h_setExpressionToAsgType _))
+  | (spec_head Sema.rangeExpressionToAsgType; spec_use (h_rangeExpressionToAsgType _))
+  | (spec_head Sema.callExprToAsgTexpr; spec_use (h_callExprToAsgTexpr _ _ _))
+  | (spec_head Sema.gateOperandToAsgTexpr; spec_use (h_gateOperandToAsgTexpr _))
+  | (spec_head Sema.indexOperatorToAsgType; spec_use (h_indexOperatorToAsgType _))
+  | (spec_head Sema.expressionListToAsgType; spec_use (h_expressionListToAsgType _))
+  | (spec_head Sema.expressionListToAsgTexpr; spec_use (h_expressionListToAsgTexpr _))
+  | (spec_head Sema.exprsLoop; spec_use (h_exprsLoop _))
+  | (spec_head Sema.indexedIdentifierToAsgType; spec_use (h_indexedIdentifierToAsgType _))
+  | (spec_head Sema.indexOperatorsLoop; spec_use (h_indexOperatorsLoop _)))
+
+set_option maxHeartbeats 1600000 in
+theorem exprToAsgTexpr_step (fuel : Nat) (ih : AllSpec S fuel) (e : Option Ast.Expr) :
+    Spec S (Sema.exprToAsgTexpr (fuel + 1) e) (OptWT S) := by
+  obtain ⟨h_exprToAsgTexpr, h_parenExprToAsgTexpr, h_setExpressionToAsgType, h_rangeExpressionToAsgType, h_callExprToAsgTexpr, h_gateOperandToAsgTexpr, h_indexOperatorToAsgType, h_expressionListToAsgType, h_expressionListToAsgTexpr, h_exprsLoop, h_indexedIdentifierToAsgType, h_indexOperatorsLoop⟩ := ih
+  unfold Sema.exprToAsgTexpr; spec
+
+set_option maxHeartbeats 1600000 in
+theorem parenExprToAsgTexpr_step (fuel : Nat) (ih : AllSpec S fuel) (p : Ast.ParenExpr) :
+    Spec S (Sema.parenExprToAsgTexpr (fuel + 1) p) (OptWT S) := by
+  obtain ⟨h_exprToAsgTexpr, h_parenExprToAsgTexpr, h_setExpressionToAsgType, h_rangeExpressionToAsgType, h_callExprToAsgTexpr, h_gateOperandToAsgTexpr, h_indexOperatorToAsgType, h_expressionListToAsgType, h_expressionListToAsgTexpr, h_exprsLoop, h_indexedIdentifierToAsgType, h_indexOperatorsLoop⟩ := ih
+  unfold Sema.parenExprToAsgTexpr; spec
+
+set_option maxHeartbeats 1600000 in
+theorem setExpressionToAsgType_step (fuel : Nat) (ih : AllSpec S fuel) (se : Ast.SetExpression) :
+    Spec S (Sema.setExpressionToAsgType (fuel + 1) se) (ListWT S) := by
+  obtain ⟨h_exprToAsgTexpr, h_parenExprToAsgTexpr, h_setExpressionToAsgType, h_rangeExpressionToAsgType, h_callExprToAsgTexpr, h_gateOperandToAsgTexpr, h_indexOperatorToAsgType, h_expressionListToAsgType, h_expressionListToAsgTexpr, h_exprsLoop, h_indexedIdentifierToAsgType, h_indexOperatorsLoop⟩ := ih
+  unfold Sema.setExpressionToAsgType; spec
+
+set_option maxHeartbeats 1600000 in
+theorem rangeExpressionToAsgType_step (fuel : Nat) (ih : AllSpec S fuel) (r : Ast.RangeExpr) :
+    Spec S (Sema.rangeExpressionToAsgType (fuel + 1) r) (fun r => WT S r.1 ∧ OptWT S r.2.1 ∧ WT S r.2.2) := by
+  obtain ⟨h_exprToAsgTexpr, h_parenExprToAsgTexpr, h_setExpressionToAsgType, h_rangeExpressionToAsgType, h_callExprToAsgTexpr, h_gateOperandToAsgTexpr, h_indexOperatorToAsgType, h_expressionListToAsgType, h_expressionListToAsgTexpr, h_exprsLoop, h_indexedIdentifierToAsgType, h_indexOperatorsLoop⟩ := ih
+  unfold Sema.rangeExpressionToAsgType; spec
+
+set_option maxHeartbeats 1600000 in
+theorem callExprToAsgTexpr_step (fuel : Nat) (ih : AllSpec S fuel) (sp : Ast.Span) (al : Option Ast.ArgList) (i : Option Ast.Identifier) :
+    Spec S (Sema.callExprToAsgTexpr (fuel + 1) sp al i) (WT S) := by
+  obtain ⟨h_exprToAsgTexpr, h_parenExprToAsgTexpr, h_setExpressionToAsgType, h_rangeExpressionToAsgType, h_callExprToAsgTexpr, h_gateOperandToAsgTexpr, h_indexOperatorToAsgType, h_expressionListToAsgType, h_expressionListToAsgTexpr, h_exprsLoop, h_indexedIdentifierToAsgType, h_indexOperatorsLoop⟩ := ih
+  unfold Sema.callExprToAsgTexpr; spec
+
+set_option maxHeartbeats 1600000 in
+theorem gateOperandToAsgTexpr_step (fuel : Nat) (ih : AllSpec S fuel) (g : Ast.GateOperand) :
+    Spec S (Sema.gateOperandToAsgTexpr (fuel + 1) g) (WT S) := by
+  obtain ⟨h_exprToAsgTexpr, h_parenExprToAsgTexpr, h_setExpressionToAsgType, h_rangeExpressionToAsgType, h_callExprToAsgTexpr, h_gateOperandToAsgTexpr, h_indexOperatorToAsgType, h_expressionListToAsgType, h_expressionListToAsgTexpr, h_exprsLoop, h_indexedIdentifierToAsgType, h_indexOperatorsLoop⟩ := ih
+  unfold Sema.gateOperandToAsgTexpr; spec
+
+set_option maxHeartbeats 1600000 in
+theorem indexOperatorToAsgType_step (fuel : Nat) (ih : AllSpec S fuel) (ix : Ast.IndexOperator) :
+    Spec S (Sema.indexOperatorToAsgType (fuel + 1) ix) (IxWT S) := by
+  obtain ⟨h_exprToAsgTexpr, h_parenExprToAsgTexpr, h_setExpressionToAsgType, h_rangeExpressionToAsgType, h_callExprToAsgTexpr, h_gateOperandToAsgTexpr, h_indexOperatorToAsgType, h_expressionListToAsgType, h_expressionListToAsgTexpr, h_exprsLoop, h_indexedIdentifierToAsgType, h_indexOperatorsLoop⟩ := ih
+  unfold Sema.indexOperatorToAsgType; spec
+
+set_option maxHeartbeats 1600000 in
+theorem expressionListToAsgType_step (fuel : Nat) (ih : AllSpec S fuel) (el : Ast.ExpressionList) :
+    Spec S (Sema.expressionListToAsgType (fuel + 1) el) (ListWT S) := by
+  obtain ⟨h_exprToAsgTexpr, h_parenExprToAsgTexpr, h_setExpressionToAsgType, h_rangeExpressionToAsgType, h_callExprToAsgTexpr, h_gateOperandToAsgTexpr, h_indexOperatorToAsgType, h_expressionListToAsgType, h_expressionListToAsgTexpr, h_exprsLoop, h_indexedIdentifierToAsgType, h_indexOperatorsLoop⟩ := ih
+  unfold Sema.expressionListToAsgType; spec
+
+set_option maxHeartbeats 1600000 in
+theorem expressionListToAsgTexpr_step (fuel : Nat) (ih : AllSpec S fuel) (el : Ast.ExpressionList) :
+    Spec S (Sema.expressionListToAsgTexpr (fuel + 1) el) (ListWT S) := by
+  obtain ⟨h_exprToAsgTexpr, h_parenExprToAsgTexpr, h_setExpressionToAsgType, h_rangeExpressionToAsgType, h_callExprToAsgTexpr, h_gateOperandToAsgTexpr, h_indexOperatorToAsgType, h_expressionListToAsgType, h_expressionListToAsgTexpr, h_exprsLoop, h_indexedIdentifierToAsgType, h_indexOperatorsLoop⟩ := ih
+  unfold Sema.expressionListToAsgTexpr; spec
+
+set_option maxHeartbeats 1600000 in
+theorem exprsLoop_step (fuel : Nat) (ih : AllSpec S fuel) (es : List Ast.Expr) :
+    Spec S (Sema.exprsLoop (fuel + 1) es) (ListWT S) := by
+  obtain ⟨h_exprToAsgTexpr, h_parenExprToAsgTexpr, h_setExpressionToAsgType, h_rangeExpressionToAsgType, h_callExprToAsgTexpr, h_gateOperandToAsgTexpr, h_indexOperatorToAsgType, h_expressionListToAsgType, h_expressionListToAsgTexpr, h_exprsLoop, h_indexedIdentifierToAsgType, h_indexOperatorsLoop⟩ := ih
+  unfold Sema.exprsLoop; spec
+
+set_option maxHeartbeats 1600000 in
+theorem indexedIdentifierToAsgType_step (fuel : Nat) (ih : AllSpec S fuel) (ii : Ast.IndexedIdentifier) :
+    Spec S (Sema.indexedIdentifierToAsgType (fuel + 1) ii) (fun r => IIWT S r.1 r.2) := by
+  obtain ⟨h_exprToAsgTexpr, h_parenExprToAsgTexpr, h_setExpressionToAsgType, h_rangeExpressionToAsgType, h_callExprToAsgTexpr, h_gateOperandToAsgTexpr, h_indexOperatorToAsgType, h_expressionListToAsgType, h_expressionListToAsgTexpr, h_exprsLoop, h_indexedIdentifierToAsgType, h_indexOperatorsLoop⟩ := ih
+  unfold Sema.indexedIdentifierToAsgType; spec
+
+set_option maxHeartbeats 1600000 in
+theorem indexOperatorsLoop_step (fuel : Nat) (ih : AllSpec S fuel) (ixs : List Ast.IndexOperator) :
+    Spec S (Sema.indexOperatorsLoop (fuel + 1) ixs) (IxsWT S) := by
+  obtain ⟨h_exprToAsgTexpr, h_parenExprToAsgTexpr, h_setExpressionToAsgType, h_rangeExpressionToAsgType, h_callExprToAsgTexpr, h_gateOperandToAsgTexpr, h_indexOperatorToAsgType, h_expressionListToAsgType, h_expressionListToAsgTexpr, h_exprsLoop, h_indexedIdentifierToAsgType, h_indexOperatorsLoop⟩ := ih
+  unfold Sema.indexOperatorsLoop; spec
+
+theorem allSpec (fuel : Nat) : AllSpec S fuel := by
+  induction fuel with
+  | zero =>
+    constructor
+    · intros; unfold Sema.exprToAsgTexpr; exact Spec.throw _ _
+    · intros; unfold Sema.parenExprToAsgTexpr; exact Spec.throw _ _
+    · intros; unfold Sema.setExpressionToAsgType; exact Spec.throw _ _
+    · intros; unfold Sema.rangeExpressionToAsgType; exact Spec.throw _ _
+    · intros; unfold Sema.callExprToAsgTexpr; exact Spec.throw _ _
+    · intros; unfold Sema.gateOperandToAsgTexpr; exact Spec.throw _ _
+    · intros; unfold Sema.indexOperatorToAsgType; exact Spec.throw _ _
+    · intros; unfold Sema.expressionListToAsgType; exact Spec.throw _ _
+    · intros; unfold Sema.expressionListToAsgTexpr; exact Spec.throw _ _
+    · intros; unfold Sema.exprsLoop; exact Spec.throw _ _
+    · intros; unfold Sema.indexedIdentifierToAsgType; exact Spec.throw _ _
+    · intros; unfold Sema.indexOperatorsLoop; exact Spec.throw _ _
+  | succ fuel ih =>
+    constructor
+    · intros; exact exprToAsgTexpr_step fuel ih _
+    · intros; exact parenExprToAsgTexpr_step fuel ih _
+    · intros; exact setExpressionToAsgType_step fuel ih _
+    · intros; exact rangeExpressionToAsgType_step fuel ih _
+    · intros; exact callExprToAsgTexpr_step fuel ih _ _ _
+    · intros; exact gateOperandToAsgTexpr_step fuel ih _
+    · intros; exact indexOperatorToAsgType_step fuel ih _
+    · intros; exact expressionListToAsgType_step fuel ih _
+    · intros; exact expressionListToAsgTexpr_step fuel ih _
+    · intros; exact exprsLoop_step fuel ih _
+    · intros; exact indexedIdentifierToAsgType_step fuel ih _
+    · intros; exact indexOperatorsLoop_step fuel ih _
 
 end Oq3.Props.C08
